@@ -7,6 +7,7 @@ package protodelim
 
 import (
 	"bufio"
+	"bytes"
 	"encoding/binary"
 	"fmt"
 	"io"
@@ -60,6 +61,10 @@ type UnmarshalOptions struct {
 }
 
 const defaultMaxSize = 4 << 20 // 4 MiB, corresponds to the default gRPC max request/response size
+
+// maxPreallocSize is the largest message size for which UnmarshalFrom
+// allocates the whole buffer before reading the message.
+const maxPreallocSize = 4 << 20
 
 // SizeTooLargeError is an error that is returned when the unmarshaler encounters a message size
 // that is larger than its configured [UnmarshalOptions.MaxSize].
@@ -141,8 +146,17 @@ func (o UnmarshalOptions) UnmarshalFrom(r Reader, m proto.Message) error {
 		}
 	}
 	if b == nil {
-		b = make([]byte, size)
-		_, err = io.ReadFull(r, b)
+		if size <= maxPreallocSize {
+			b = make([]byte, size)
+			_, err = io.ReadFull(r, b)
+		} else {
+			// Do not trust a large size prefix with a single allocation:
+			// a size the stream cannot back must end in io.ErrUnexpectedEOF,
+			// not in a failed (or panicking) make([]byte, size).
+			var buf bytes.Buffer
+			_, err = io.CopyN(&buf, r, int64(size))
+			b = buf.Bytes()
+		}
 	}
 
 	if err == io.EOF {
